@@ -5,7 +5,9 @@ PATCH=$(readlink -f "$1"); ID=$2; TIER=${3:-quick}
 cd /repo || exit 2
 if ! git diff --quiet; then echo "/repo has uncommitted changes"; exit 2; fi
 git apply "$PATCH" || { echo "patch does not apply"; exit 2; }
+cp /verif/evidence/$ID.json /verif/run/evidence_$ID.keep 2>/dev/null
 cd /verif && ./check "$ID" "$TIER" > run/seedtest_$ID.log 2>&1; RC=$?
+cp /verif/run/evidence_$ID.keep /verif/evidence/$ID.json 2>/dev/null
 cd /repo && git checkout -- . && /verif/tools/bin/go2coq -repo /repo -out /verif/coq/gen >/dev/null
 grep -E "^VIOLATION|^OK|^KNOWN|oracle:|prove:|correspondence:" /verif/run/seedtest_$ID.log
 echo "exit=$RC"
